@@ -192,6 +192,8 @@ var (
 		"a.b.default.svc.cluster.local", "default.svc.cluster.local", "foo.svc.cluster.local", "reviews.default", "reviews",
 		"api.example.com", "example.com", "foo.local.campus.net", "foo.bar.campus.net", "campus.net", "x.svc.", "svc.svc.svc.cluster.local",
 		"10.1.2.3", "2001:db8::1", "Reviews.Default.svc.cluster.local", "foo.com.default.svc.cluster.local", "foo.com",
+		// wildcard service names (ServiceEntry hosts): must never be abbreviated to the bare "*"
+		"*.default.svc.cluster.local", "*.other.svc.cluster.local", "*.local.campus.net", "*.campus.net", "*.example.com", "*.x.default.svc.cluster.local",
 	}
 	proxyDomains = []string{
 		"default.svc.cluster.local", "other.svc.cluster.local", "local.campus.net", "remote.campus.net", "", "example.com",
@@ -418,6 +420,9 @@ func oracleVhosts(in, out string) {
 				}
 				_, alts := realDomains(hostname, nil, f[4] == "1", wire.Dec(f[5]), atoi(f[6]), atoi(f[7]), pd, f[9] == "1")
 				for _, a := range alts {
+					if a == "*" || strings.HasPrefix(a, "*:") {
+						fail("alt-host-sound alt=%s host=%s proxyDomain=%s (bare wildcard collides with the catch-all virtual host)", wire.Enc(a), wire.Enc(hostname), wire.Enc(pd))
+					}
 					if !altHostSound(a, hostname, pd) {
 						fail("alt-host-sound alt=%s host=%s proxyDomain=%s", wire.Enc(a), wire.Enc(hostname), wire.Enc(pd))
 					}
